@@ -19,7 +19,9 @@ CHILD = os.path.join(VERIF, "harness", "children", "child.py")
 SCRATCH = os.path.join(os.path.dirname(BUILD_ROOT.rstrip("/")), "scratch-c04") if BUILD_ROOT.startswith("/var/tmp/") else "/var/tmp/verif-scratch-c04"
 
 
-def answer(line, mode):
+def answer(line, mode, n=0):
+    if mode.endswith("+num"):     # stateful child: n = number of lines the child has answered before
+        return b"%d:<" % n + line.upper() + b">"
     if mode == "echo":
         return line
     if mode.endswith("+f3"):
@@ -192,6 +194,12 @@ def main(argv):
     for mode in ("eager+f3", "stdio+f3", "readall+f3"):
         jobs.append((["-k", "1"], "1", b"\t", [b"k1\tu\t\tw", b"k1\tv\t\tw", b"k2\tu\tC\tw", b"k1\tz\tD\tw", b"k3\tu\t\tw", b"k2\tq\t\tw", b"k3\tu\tE\tw"], mode, 0))
         jobs.append((["-k", "1"], "1", b"\t", [b"e\t1\t\tz"] * 4 + [b"f\t1\tF\tz", b"e\t2\tG\tz"], mode, 0))
+    # a STATEFUL child (numbers its answers): the line for input i is the answer line the child WROTE for the first
+    # line with the same key (C04_any_child_answer_of_first_line_with_same_key)
+    for mode in ("eager+num", "block:7+num", "readall+num", "stdio+num"):
+        jobs.append(([], None, None, [b"a", b"a", b"b", b"a", b"c", b"b", b"", b""], mode, 0))
+        jobs.append(([], None, None, [c.rng.choice([b"u", b"v", b"w", b"", b"xy"]) for _ in range(c.rng.randrange(1, 60))], mode, 0))
+    jobs.append((["-k", "1"], "1", b"\t", [b"k1\tu\tw", b"k1\tv\tw", b"k2\tu\tw", b"k1\tz\tw", b"k3\tu\tw", b"k2\tq\tw"], "eager+num", 0))
     # whole-line keys whose 64-bit hashes (MurmurHash64A, seed 0, as cache folds a single piece) agree only in the
     # low or only in the high 32 bits: both lines of a pair are distinct keys and must reach the child
     pairs = [(b"7085", b"153120"), (b"26949", b"148467"), (b"99261", b"123352")]
@@ -251,7 +259,7 @@ def main(argv):
         exp_out, exp_log = [], []
         for l, k in zip(lines, keys):
             if k not in first:
-                first[k] = answer(l, mode)
+                first[k] = answer(l, mode, len(exp_log))
                 exp_log.append(l)
             exp_out.append(first[k])
         exp_out_b = b"".join(o + b"\n" for o in exp_out)
@@ -259,7 +267,7 @@ def main(argv):
         if out != exp_out_b:
             c.violation("transparency: cache output differs from the answers of the first line with the same key (%d lines, key %s, child %s): got %r..., expected %r..." % (
                 len(lines), kspec or "whole line", mode, out[:60], exp_out_b[:60]), desc)
-        elif kspec is None and out != b"".join(answer(l, mode) + b"\n" for l in lines):
+        elif kspec is None and not mode.endswith("+num") and out != b"".join(answer(l, mode) + b"\n" for l in lines):
             c.violation("transparency: output differs from running the child directly", desc)
         if log_data != exp_log_b:
             c.violation("child-input: the child did not receive exactly the first-occurrence lines once in order (%d lines, key %s): got %r..., expected %r..." % (
@@ -273,7 +281,7 @@ def main(argv):
             for l, k in zip(lines, keys):
                 ids.setdefault(k, len(ids))
                 items.append("%d:%s" % (ids[k], hexs(l)))
-            mlines.append("R %s %s" % ("e" if mode == "echo" else ("c" if mode.endswith("+cr") else ("f" if mode.endswith("+f3") else "u")), " ".join(items)))
+            mlines.append("R %s %s" % ("e" if mode == "echo" else "n" if mode.endswith("+num") else ("c" if mode.endswith("+cr") else ("f" if mode.endswith("+f3") else "u")), " ".join(items)))
             mjobs.append((job, out, log_data, trace))
     if drv is not None and mlines:
         rc, mout, merr = run_lines(drv, mlines, timeout=600)
